@@ -34,7 +34,7 @@ var wideArgNames = []string{
 	"thrift", "context", "fmt", "string", "int32", "error", "nil", "true", "len", "append", "type", "func", "map", "struct", "const", "P", "Err", "Ctx", "R", "_", "__", "_p", "p_", "_type",
 }
 var wideEnumValues = []string{"A", "a", "_A", "A_", "a__b", "nil", "true", "String", "string", "FromString", "Ptr", "DEFAULT", "default", "type", "New", "int64"}
-var widePackages = []string{"fmt", "context", "thrift", "strings", "bytes", "reflect", "unknown", "meta", "sql", "driver", "err", "iprot", "errors", "math", "types", "go", "init", "main"}
+var widePackages = []string{"fmt", "context", "thrift", "strings", "bytes", "reflect", "unknown", "meta", "sql", "driver", "err", "iprot", "errors", "math", "types"}
 
 // aimed renames derive a colliding name from names that exist in the program.
 type aim struct {
